@@ -38,6 +38,7 @@ RULE_TEXT = (
     'histories; distinct_nontrivial = distinct script/shape digests whose '
     'fault fired at least once; fault_points = (run, k) pairs executed.')
 RULE_TEXT += ' A quarter of the histories are C10 hand-over histories with migrations, 60% of those with pre-existing tables of the migrations-only app.'
+RULE_TEXT += ' 1 in 16 histories add an unmanaged model next to an ordinary one.'
 ASSUMPTIONS = [
     'signals are emitted by Evolver.evolve(): "before any change" is judged '
     'from the start of the process up to `evolving`, not counting the '
@@ -252,10 +253,40 @@ def _gen_handover(rng, seed, index, tier):
             'rows': {}, 'rows_by_version': [{} for _ in range(n)]}
 
 
+def _gen_unmanaged(rng):
+    """A release adds two models to an installed app, one of them with
+    Meta.managed = False: whatever creating_models / created_models carry
+    must be what was really created between them."""
+    intf = lambda n: {'name': n, 'kind': 'Integer', 'attrs': {'null': True}}
+    item = {'name': 'Item', 'fields': [intf('a')], 'meta': {}}
+    part = {'name': 'Part', 'fields': [intf('b')], 'meta': {}}
+    audit = {'name': 'Zed', 'fields': [intf('z')],
+             'meta': {'managed': False}}
+    new = [part, audit] if rng.random() < 0.5 else [audit, part]
+    muts = [{'op': 'NewModel', 'model': m} for m in new]
+    if rng.random() < 0.5:
+        muts.append({'op': 'AddField', 'model': 'Item', 'field': intf('c')})
+    project = {'apps': {'va': {'v0': [item], 'steps': [
+        {'evos': [{'label': spec.evo_label(0), 'mutations': muts}]}]}},
+        'order': ['va'], 'databases': ['default']}
+    fresh = rng.random() < 0.4
+    script = ([{'do': 'deploy', 'v': 1}, {'do': 'run', 'driver': 'command'}]
+              if fresh else
+              [{'do': 'deploy', 'v': 0}, {'do': 'run', 'driver': 'command'},
+               {'do': 'deploy', 'v': 1},
+               {'do': 'run', 'driver': rng.choice(['command', 'api'])}])
+    script.append({'do': 'run', 'driver': 'command'})
+    return {'project': project, 'script': script, 'max_k': 30,
+            'simple': True, 'kind': 'unmanaged', 'rows': {},
+            'rows_by_version': [{}, {}]}
+
+
 def generate(seed, index, tier):
     rng = scenarios.derive_rng(seed, ID, index)
     if index % 4 == 3:
         return _gen_handover(rng, seed, index, tier)
+    if index % 16 == 6:
+        return _gen_unmanaged(rng)
     simple = rng.random() < 0.6
     two = rng.random() < 0.5
     h = history.gen_history(rng, simple=simple, two_apps=two,
